@@ -437,6 +437,7 @@ func c09Run(t *testing.T, shape c09Shape) func(c *vsched.Chooser) vsched.Outcome
 func TestVerifC09(t *testing.T) {
 	defer vsched.Finish(t)
 	r := vsched.Rep()
+	lfCalibrate()
 	r.Assumption("event granularity: client operations, PostStop/PreStart gate releases and death-watch deliveries are interleaved in every order; code between two gates runs without harness-controlled preemption")
 	r.Assumption("orders in which a second stopper would wait on a held PID.stopLocker are represented by the order in which it starts right after the lock is released")
 	var scs []vsched.Scenario
